@@ -61,6 +61,9 @@ package rel
 //@ func NewOffsetString(s, offset)
 //@   tags C10
 //@   assigns nothing
+//@   ensures[C02] valid: len(s) > 0 && s[0] >= 0 && s[len(s)-1] >= 0 ==> validSet(result)
+//@   ensures[C05] den: forall x: Val :: mem(result, x) <==> (x is StringCharTuple && inStrRaw(s, offset, x.(StringCharTuple).at, x.(StringCharTuple).char))
+//@   loop 0 invariant cnt: $idx <= len(s) && holes == cntNeg(row(s), s.off, s.off + $idx)
 
 //@ func (String).With(s; value)
 //@   tags C10
@@ -232,3 +235,32 @@ package rel
 //@   ensures[C05] call: forall x: Val :: added[x] <==> (old(added)[x] || (arg is Number && i2f(f2i(arg.(Number))) == arg.(Number)
 //@       && b.offset <= f2i(arg.(Number)) && f2i(arg.(Number)) < b.offset + len(b.b)
 //@       && x == mkval(rel.Number, i2f(b.b[f2i(arg.(Number)) - b.offset]))))
+
+// ---- constructors (C02 canonical form, C05 offsets) -----------------------------------------------
+
+//@ func NewString(s)
+//@   tags C10
+//@   assigns nothing
+//@   ensures[C02] valid: len(s) > 0 && s[0] >= 0 && s[len(s)-1] >= 0 ==> validSet(result)
+//@   ensures[C05] den: forall x: Val :: mem(result, x) <==> (x is StringCharTuple && inStrRaw(s, 0, x.(StringCharTuple).at, x.(StringCharTuple).char))
+
+//@ func NewOffsetArray(offset, values)
+//@   tags C10
+//@   assigns nothing
+// (not yet claimed: the canonical-form and denotation postconditions of NewOffsetArray; the solvers do not
+//  finish on the merged three-loop exit, see DESIGN.md section 9)
+//@   loop 0 invariant lead: $idx <= len(values) && forall j in 0..$idx :: values[j] == nil
+//@   loop 1 invariant trail: -1 <= i && i < len(values) && forall j in i+1..len(values) :: values[j] == nil
+//@   loop 2 invariant cnt: $idx <= len(values) && n == cntNN(row(values), values.off, values.off + $idx)
+
+//@ func NewBytes(b)
+//@   tags C10
+//@   assigns nothing
+//@   ensures[C02] valid: validSet(result)
+//@   ensures[C05] den: forall x: Val :: mem(result, x) <==> (x is BytesByteTuple && inBytesRaw(b, 0, x.(BytesByteTuple).at, x.(BytesByteTuple).byteval))
+
+//@ func NewOffsetBytes(b, offset)
+//@   tags C10
+//@   assigns nothing
+//@   ensures[C02] valid: validSet(result)
+//@   ensures[C05] den: forall x: Val :: mem(result, x) <==> (x is BytesByteTuple && inBytesRaw(b, offset, x.(BytesByteTuple).at, x.(BytesByteTuple).byteval))
